@@ -16,7 +16,7 @@ from simkit import gen, model
 from simkit.harness import HarnessError, World
 from simkit.seam import REAL
 
-TIERS = {"C16": {"quick": 2000, "thorough": 40000}}
+TIERS = {"C16": {"quick": 2000, "thorough": 16000}}
 LEVEL = {"C16": "exploration"}
 RULE = {
     "C16": "scenario = 2-4 writers with heavily overlapping trees, thread or process mode, "
